@@ -41,8 +41,9 @@ pub fn anim_desc_strategy() -> impl Strategy<Value = AnimDesc> {
     let st = |w_anim: u32, w_none: u32| {
         prop_oneof![
             w_none => Just(None),
-            w_anim * 3 => comp().prop_map(|c| Some(vec![c])),
-            w_anim => (comp(), comp()).prop_map(|(a, b)| Some(vec![a, b])),
+            w_anim * 6 => comp().prop_map(|c| Some(vec![c])),
+            w_anim * 2 => (comp(), comp()).prop_map(|(a, b)| Some(vec![a, b])),
+            w_anim => (comp(), comp(), comp()).prop_map(|(a, b, c)| Some(vec![a, b, c])),
         ]
     };
     (st(6, 1), st(6, 1), st(6, 1), st(1, 6), st(1, 6), 0u8..5, vals_strategy())
